@@ -14,6 +14,9 @@ Section RoundError.
     mkAF (value - abs_error) (value + abs_error).
   Definition af_from (value : K) : AF := af_from_value_and_error value n0.
   Definition af_from_bounds (l h : K) : AF := mkAF l h.
+  (** [from_bounds] opens with [debug_assert!(high >= low)]: a panic of debug builds only (it also fires when a
+      bound is NaN); release builds return the pair as given.  Reported separately, as for the other debug assertions. *)
+  Definition af_from_bounds_debug_ok (l h : K) : bool := h >=? l.
   Definition af_midpoint (a : AF) : K := (low a + high a) / n2.
   Definition af_as_float := af_midpoint.
   Definition af_absolute_error (a : AF) : K := (high a - low a) / n2.
